@@ -4,6 +4,7 @@ package svc
 
 import (
 	"fmt"
+	"runtime"
 	"strings"
 	"sync"
 	"sync/atomic"
@@ -140,6 +141,9 @@ func (r *Runner) WaitDone(reply string, n int) error {
 	defer r.mu.Unlock()
 	for r.done[reply] < n {
 		if time.Now().After(deadline) {
+			if w := Wedged(); w != "" {
+				return Behaviour(fmt.Sprintf("request %s has not been processed after 30s and never will be: %s", reply, w))
+			}
 			return fmt.Errorf("VERIF-INCONCLUSIVE: request %s not processed within 30s", reply)
 		}
 		waitCond(r.cond, 100*time.Millisecond)
@@ -175,6 +179,40 @@ func Verdict(err error) string {
 		return err.Error()
 	}
 	return "VERIF-INCONCLUSIVE: " + err.Error()
+}
+
+// Wedged reports a goroutine that is inside go-res and waits for a mutex, together with where:
+// after half a minute without progress that is a deadlock (a lock that its holder never
+// released, or takes again), not slowness. "" if there is none.
+func Wedged() string {
+	buf := make([]byte, 1<<22)
+	buf = buf[:runtime.Stack(buf, true)]
+	for _, g := range strings.Split(string(buf), "\n\n") {
+		head, _, _ := strings.Cut(g, "\n")
+		if !strings.Contains(head, "[sync.Mutex.Lock") && !strings.Contains(head, "[sync.RWMutex.") {
+			continue
+		}
+		var frames []string
+		inLib := false
+		for _, l := range strings.Split(g, "\n")[1:] {
+			if strings.HasPrefix(l, "\t") || strings.HasPrefix(l, "created by") {
+				continue
+			}
+			if strings.HasPrefix(l, "github.com/jirenius/go-res") {
+				inLib = true
+			}
+			if i := strings.LastIndexByte(l, '('); i > 0 {
+				l = l[:i]
+			}
+			if !strings.HasPrefix(l, "internal/sync.") && !strings.HasPrefix(l, "sync.") && len(frames) < 6 {
+				frames = append(frames, l)
+			}
+		}
+		if inLib {
+			return "a goroutine waits for a mutex in " + strings.Join(frames, " <- ")
+		}
+	}
+	return ""
 }
 
 // QueryPassed returns how many query requests the query listeners have passed on to workers.
@@ -236,7 +274,18 @@ func waitCond(c *sync.Cond, d time.Duration) {
 
 // Stop shuts the service down and waits for Serve to return.
 func (r *Runner) Stop() error {
-	err := r.S.Shutdown()
+	shut := make(chan error, 1)
+	go func() { shut <- r.S.Shutdown() }()
+	var err error
+	select {
+	case err = <-shut:
+	case <-time.After(30 * time.Second):
+		res.VerifHook = nil
+		if w := Wedged(); w != "" {
+			return Behaviour("Shutdown has not returned after 30s and never will: " + w)
+		}
+		return fmt.Errorf("VERIF-INCONCLUSIVE: Shutdown did not return within 30s")
+	}
 	select {
 	case <-r.exited:
 	case <-time.After(30 * time.Second):
